@@ -62,6 +62,38 @@ def prov_is_tmp(prov):
     return 'TMP' in prov and all(t in TMP_OK or t.startswith('const:') for t in prov)
 
 
+def kindflag(run, p, rid='C10-KINDFLAG'):
+    from ..pyeval import Interp, Obj, Unsupported, Raised
+    run.rule(rid, 'whether a reference of some kind is rewritten is what was last said about that kind: _should_regenerate, evaluated '
+                  'over the flag tables set_regeneration can leave (nothing, all kinds on / off, one kind on / off, and a kind '
+                  'switched off after all kinds were switched on, or on after all were switched off) and three kinds, answers the '
+                  'flag of the kind itself when there is one - False included - and the flag for all kinds otherwise; never True '
+                  'when both are absent.  A reference is overwritten instead of compared exactly when this answers True')
+    rt = p.cls('ReferenceTest')
+    f = rt.methods.get(REGEN)
+    if f is None:
+        raise AnalysisError('ReferenceTest._should_regenerate vanished')
+    tables_ = [{}, {None: True}, {None: False}, {'csv': True}, {'csv': False}, {'csv': False, None: True}, {'csv': True, None: False},
+               {'text': True, None: False}, {'text': False, 'csv': True, None: True}, {'csv': None, None: True}]
+    n = 0
+    for tb in tables_:
+        for kind in ('csv', 'text', 'graph'):
+            o = Obj(rt)
+            o.attrs['regenerate'] = dict(tb)
+            I = Interp(p)
+            try:
+                got = I.call(f, [kind], {}, selfobj=o)
+            except Unsupported as e:
+                raise AnalysisError('_should_regenerate is not evaluable: %s' % e)
+            except Raised as e:
+                got = 'raises %s' % e
+            want = tb[kind] if kind in tb else tb.get(None, False)
+            n += 1
+            run.ob(rid, 'flags=%r,kind=%s' % (sorted(tb.items(), key=repr), kind), (not isinstance(got, str)) and bool(got) == bool(want),
+                   'flags %r, kind %r: answers %r, the flags say %r' % (tb, kind, got, bool(want)), fn=f)
+    run.floor(rid, n, 30)
+
+
 def check(run):
     p = run.prog
     methods = assertion_methods(p)
@@ -177,6 +209,7 @@ def check(run):
 
     run.attempt(whosets, run, p, rt)
     run.attempt(flags, run, p)
+    run.attempt(kindflag, run, p)
     run.attempt(rw, run, p, E, rt)
     run.attempt(verbatim, run, p, rt)
     from .c04 import split
